@@ -51,11 +51,15 @@ REQUIRED = ["histories", "operations", "open_log_checks", "index_ops", "negative
             "chain_negative_indices", "chain_empty_members", "populations_rows_checked", "populations_slices_checked",
             "to_population_checked", "map_checked", "map_verbose_checked", "map_then_read_audited", "listing_order_injected",
             "large_populations", "roots_spelled_differently",
-            "transform_checked", "tap_load",
+            "transform_checked", "tap_load", "symbolic_link_entries",
             "audit_file_opens"]
 FLOOR = {"quick": 250, "thorough": 5000}
 SHARDS = {"quick": 8, "thorough": 16}
 TIMEOUT = {"quick": 300, "thorough": 3000}
+
+
+_ALIASES: dict = {}  # real path of a link target -> (population root, listed relative path)
+_LINKS = [0]
 
 
 def make_layout(rng, root, *, nfiles=None, marker_base=0, small=False):
@@ -74,6 +78,17 @@ def make_layout(rng, root, *, nfiles=None, marker_base=0, small=False):
         marker = float(marker_base + i)
         p = os.path.join(root, rel)
         os.makedirs(os.path.dirname(p), exist_ok=True)
+        link = rng.random() < 0.12
+        if link:
+            # a link-farm entry: the directory entry is a symbolic link to the file proper, which
+            # lies elsewhere under another name
+            store = os.path.join(root, ".store")
+            os.makedirs(store, exist_ok=True)
+            target = os.path.join(store, f"blob{i:02d}.dat")
+            os.symlink(target if i % 2 else os.path.relpath(target, os.path.dirname(p)), p)
+            _ALIASES[os.path.realpath(target)] = (os.path.realpath(root), rel)
+            _LINKS[0] += 1
+            p = target
         with open(p, "w") as f:
             f.write(f"# cell {i}\n")
             for j in range(n):
@@ -104,7 +119,9 @@ class OpenLog:
         c = Counter()
         for path, mode in audit.snapshot():
             rp = os.path.realpath(path)
-            if rp.startswith(self.root + os.sep) and os.path.isfile(rp):
+            if rp in _ALIASES and _ALIASES[rp][0] == self.root:
+                c[_ALIASES[rp][1]] += 1  # opened through its symbolic link
+            elif rp.startswith(self.root + os.sep) and os.path.isfile(rp):
                 c[os.path.relpath(rp, self.root)] += 1
         return c
 
@@ -598,6 +615,7 @@ def run(ctx):
                     "large": True}
             ctx.case(case, klass="history-large")
             execute(ctx, case)
+    ctx.count("symbolic_link_entries", _LINKS[0])
     ctx.count("tap_load", tap.counts["load"])
 
 
